@@ -527,6 +527,17 @@ def q3(run: Run, prog: Program, cy: CyProgram, m: Master):
         return None
     if getattr(m, "start", None) is None or getattr(m, "end", None) is None:
         return None
+    # roles of the worker's parameters: the position at which the master ships
+    # its chunk start / chunk end / full size (whatever the worker calls them)
+    m.worker_roles = {}
+    for i, pa in enumerate(pargs.elts):
+        if isinstance(pa, ast.Name):
+            if pa.id == m.start:
+                m.worker_roles[i] = "start_i"
+            elif pa.id == m.end:
+                m.worker_roles[i] = "end_i"
+            elif pa.id == m.N:
+                m.worker_roles[i] = "N"
     pdefs = _branch_defs(m.submit_loop.body)
     sdefs = _branch_defs(m.ifnode.orelse)
     m.sliced = []
@@ -586,13 +597,69 @@ def _corresponds(pa, sa, pdefs, sdefs, m):
     return True, sliced_any, ""
 
 
-def _worker_shape(prog, cy, m):
-    """('chunk'|'full', return arity, param names) of the worker's result."""
+class _PyRename(ast.NodeTransformer):
+    def __init__(self, mapping):
+        self.m = mapping
+
+    def visit_Name(self, n):
+        if n.id in self.m:
+            return ast.copy_location(ast.Name(id=self.m[n.id], ctx=n.ctx), n)
+        return n
+
+    def visit_arg(self, n):
+        if n.arg in self.m:
+            n = copy.copy(n)
+            n.arg = self.m[n.arg]
+        return n
+
+
+def _canon_worker(cy, m):
+    """The worker with its chunk-role parameters renamed to the canonical names
+    (start_i, end_i, N) used by the classification code below: ('kernel', CyFunc)
+    or ('func', FuncInfo-like)."""
+    from .cymodel import rename_x, canonical_mapping, names_in
     t = m.target
+    roles = getattr(m, "worker_roles", {})
     if t[0] == "kernel":
         f = cy.func(t[1], t[2])
         if f is None:
             raise AnalysisError(f"kernel {t[1]}.{t[2]} not found")
+        mp = {}
+        for i, (n, _) in enumerate(f.args):
+            if i in roles:
+                mp[n] = roles[i]
+        if not mp or all(k == v for k, v in mp.items()):
+            return f
+        allnames = names_in(f.body) | {n for n, _ in f.args} | set(f.locals)
+        mp = canonical_mapping(mp, allnames)
+        g = copy.copy(f)
+        g.args = [(mp.get(n, n), ty) for n, ty in f.args]
+        g.body = rename_x(f.body, mp)
+        g.locals = {mp.get(n, n): (ty, rename_x(init, mp) if init is not None else None, ln)
+                    for n, (ty, init, ln) in f.locals.items()}
+        return g
+    fi = t[1]
+    mp = {}
+    for i, n in enumerate(fi.params):
+        if i in roles:
+            mp[n] = roles[i]
+    if not mp or all(k == v for k, v in mp.items()):
+        return fi
+    used = {x.id for x in ast.walk(fi.node) if isinstance(x, ast.Name)} | set(fi.params)
+    for n in list(used):
+        if n not in mp and n in mp.values():
+            mp[n] = "_u_" + n
+    g = copy.copy(fi)
+    g.node = _PyRename(mp).visit(copy.deepcopy(fi.node))
+    g.params = [mp.get(n, n) for n in fi.params]
+    return g
+
+
+def _worker_shape(prog, cy, m):
+    """('chunk'|'full', return arity, param names) of the worker's result."""
+    t = m.target
+    if t[0] == "kernel":
+        f = _canon_worker(cy, m)
         rets = [s for s in walk(f.body) if isinstance(s, X) and s.k == "return"]
         if len(rets) != 1 or rets[0].a[0] is None or rets[0].a[0].k != "tuple":
             raise AnalysisError(f"{f.where}: worker return is not one tuple")
@@ -609,7 +676,7 @@ def _worker_shape(prog, cy, m):
                     n = n.a[0][0]
                 shape = _len_class(n, f)
         return shape, [len(elts)], params, [pp(e) for e in elts], f
-    fi: FuncInfo = t[1]
+    fi: FuncInfo = _canon_worker(cy, m)
     params = fi.params
     # result = (x, start_i, end_i); return (error_message, result)
     ret_ar = set()
@@ -747,7 +814,7 @@ def q6(run: Run, prog, cy, m: Master):
     t = m.target
     use = {}      # param -> set of classes {'rel','abs','full','whole'}
     if t[0] == "kernel":
-        wf = cy.func(t[1], t[2])
+        wf = _canon_worker(cy, m)
         params = [a for a, _ in wf.args]
         cls = _cy_index_classes(wf)
         for n in walk(wf.body):
@@ -757,7 +824,7 @@ def q6(run: Run, prog, cy, m: Master):
                 use.setdefault(n.a[0].a[0], set()).add(_classify_cy(first, cls))
         where = wf.where
     else:
-        wf = t[1]
+        wf = _canon_worker(cy, m)
         params = wf.params
         cls = _py_index_classes(wf)
         for n in ast.walk(wf.node):
@@ -966,9 +1033,14 @@ def q7(run: Run, prog: Program, cy: CyProgram):
     kf = cy.func(kname[1], kname[2])
     if kf is None:
         raise AnalysisError(f"kernel {kname} not found")
-    loops = [s for s in kf.body if s.k == "for" and pp(s.a[1]) == "targets"]
+    # the batch parameter is the one partial() leaves open: the last one
+    npre = len(wd.args) - 1
+    open_params = [n for n, _ in kf.args][npre:]
+    tparam = open_params[0] if len(open_params) == 1 else "targets"
+    loops = [s for s in kf.body if s.k == "for" and pp(s.a[1]) == tparam]
     if len(loops) != 1:
-        raise AnalysisError(f"{kf.where}: `for j in targets` not found at top level")
+        raise AnalysisError(f"{kf.where}: `for j in {tparam}` (loop over the batch "
+                            f"parameter) not found at top level")
     loop = loops[0]
     body = loop.a[2]
     arrays = {n for n, (t, _, _) in kf.locals.items() if t.kind == "buffer"}
